@@ -5,6 +5,7 @@ import (
 	"encoding/json"
 	"fmt"
 	"go/ast"
+	"go/build"
 	"go/format"
 	"go/parser"
 	"go/token"
@@ -189,6 +190,24 @@ func buildOverlay(cfg *CheckCfg, scratch, patch string) (string, error) {
 		}
 	}
 
+	// global_reset: a generated file per listed package that can put every package-level variable
+	// back to its value at program start (so that executions of a stateless exploration stay independent
+	// even if a change introduces hidden package-level state)
+	for _, pkg := range cfg.GlobalReset {
+		src, err := genGlobalReset(pkg, replace)
+		if err != nil {
+			return "", fmt.Errorf("global_reset %s: %v", pkg, err)
+		}
+		dst := filepath.Join(rdir, "gr", pkg, "zz_verif_globals.go")
+		if err := os.MkdirAll(filepath.Dir(dst), 0o755); err != nil {
+			return "", err
+		}
+		if err := os.WriteFile(dst, src, 0o644); err != nil {
+			return "", err
+		}
+		replace[filepath.Join(repoDir, pkg, "zz_verif_globals.go")] = dst
+	}
+
 	ov := filepath.Join(scratch, "overlay-"+cfg.ID+".json")
 	buf, _ := json.MarshalIndent(map[string]any{"Replace": replace}, "", " ")
 	if err := os.WriteFile(ov, buf, 0o644); err != nil {
@@ -241,4 +260,50 @@ func rewriteImports(file string, m map[string]string) ([]byte, bool, error) {
 		return nil, false, err
 	}
 	return out.Bytes(), true, nil
+}
+
+// genGlobalReset writes VerifResetGlobals() for one package: a shallow snapshot of all package-level
+// variables taken in an init function of a file that sorts last, and a function restoring it.
+func genGlobalReset(pkg string, replace map[string]string) ([]byte, error) {
+	dir := filepath.Join(repoDir, pkg)
+	bp, err := build.Default.ImportDir(dir, 0)
+	if err != nil {
+		return nil, err
+	}
+	var names []string
+	fset := token.NewFileSet()
+	for _, name := range append(append([]string{}, bp.GoFiles...), bp.CgoFiles...) {
+		file := filepath.Join(dir, name)
+		if cur, ok := replace[file]; ok {
+			file = cur
+		}
+		f, err := parser.ParseFile(fset, file, nil, 0)
+		if err != nil {
+			return nil, err
+		}
+		for _, d := range f.Decls {
+			gd, ok := d.(*ast.GenDecl)
+			if !ok || gd.Tok != token.VAR {
+				continue
+			}
+			for _, sp := range gd.Specs {
+				for _, n := range sp.(*ast.ValueSpec).Names {
+					if n.Name != "_" {
+						names = append(names, n.Name)
+					}
+				}
+			}
+		}
+	}
+	var b bytes.Buffer
+	fmt.Fprintf(&b, "// Code generated by /verif (global_reset). DO NOT EDIT.\n\npackage %s\n\nvar verifGlobalsRestore = func() {}\n\nfunc init() {\n", bp.Name)
+	for i, n := range names {
+		fmt.Fprintf(&b, "\tc%d := %s\n", i, n)
+	}
+	fmt.Fprintf(&b, "\tverifGlobalsRestore = func() {\n")
+	for i, n := range names {
+		fmt.Fprintf(&b, "\t\t%s = c%d\n", n, i)
+	}
+	fmt.Fprintf(&b, "\t}\n}\n\n// VerifResetGlobals puts every package-level variable back to its value at program start (shallow copies).\nfunc VerifResetGlobals() { verifGlobalsRestore() }\n")
+	return format.Source(b.Bytes())
 }
